@@ -315,6 +315,8 @@ func (group *Group) delCustomizePubSession(sessionCtx ICustomizePubSessionContex
 		return
 	}
 
+	// 标记为已销毁，之后上层再通过该对象输入的数据不再进入group
+	group.customizePubSession.Dispose()
 	group.delIn()
 }
 
